@@ -13,7 +13,13 @@ CLAIMED = {
          'C10_merge_canonical, C10_history_canonical, C10_trial_merge_lww); namespace encode/decode round trip and '
          'injectivity proved for every namespace with no component ending in a backslash (C10_ns_*_partial) and the full '
          'statement REFUTED with a kernel-checked witness (C10_ns_roundtrip_refuted, C10_ns_injective_refuted) = known finding '
-         'C10-ns-trailing-backslash. Tie: correspondence of Namespace.encode/decode and merge_study/trial_metadata with the model.'),
+         'C10-ns-trailing-backslash. AT THE RPC (service model): an accepted UpdateMetadata stores exactly the merge of the study\'s metadata '
+         'with the update and, for every trial it names, the merge of that trial\'s metadata with its updates, touching nothing else; a call '
+         'that names a missing trial answers with error details and leaves the stored state syntactically unchanged '
+         '(C10_update_metadata_rpc); after any sequence of such calls each (namespace, key) of the study holds the value of the last '
+         'ACCEPTED write (C10_update_metadata_history). Tie: correspondence of Namespace.encode/decode and merge_study/trial_metadata with '
+         'the model; metadata_util.assign / get / get_proto and key-value-list conversions with string, Message and packed Any values; '
+         'UpdateMetadata and algorithm deltas end to end through the service on both datastores.'),
    note=BASE_TB + ' Packed-proto payloads are opaque (tag + bytes).',
    technique='Rocq proof (induction over update sequences; parser invariant) + vm_compute correspondence',
    design='5/C10'),
@@ -107,7 +113,10 @@ CLAIMED['C05'] = dict(
          'skeletons in the kernel; C05_shape_check_sound proves the abstract check sound for the trace semantics (unbounded loops, caught '
          'IntegrityErrors); C05_primitive_crash_atomic: for a checked method, after ANY prefix of its SQL activity the durable content is that '
          'before or that after the call; C05_acknowledged_is_durable; C05_single_resource_rpc_one_mutation: the nine single-resource RPCs '
-         'change the store through at most one primitive in every state (hence all-or-nothing). All closed under the global context. '
+         'change the store through at most one primitive in every state (hence all-or-nothing). CRASH ANYWHERE '
+         '(C05_crash_anywhere_keeps_lifecycle): along every history, a crash after any number of datastore primitives of any next RPC '
+         'leaves a state in which every stored trial has evolved by a legal transition and study keys / operation keys / trial ids are '
+         'unique (SuggestTrials followed prefix by prefix through its loops). All closed under the global context. '
          'Crash harness: child processes killed before every k-th SQL statement/commit of every RPC kind after generated prefixes; a fresh '
          'server reopens the SQLite file: recovered state must be before/after (single-resource), a prefix of the RPC in the model, satisfy the '
          'lifecycle invariants, hold no orphans of deleted studies, and clients continue. Known finding: a crash inside SuggestTrials leaves that '
@@ -118,7 +127,12 @@ CLAIMED['C04'] = dict(
    text=('Theorems for ANY number of concurrent calls and ANY schedule (closed under the global context): trial ids stay unique per study '
          '(C04_unique_ids_all_interleavings: every datastore primitive preserves it); every handler obeys the lock discipline (operation '
          'lock first, study/owner lock innermost, LIFO release, returns holding nothing: C04_lock_discipline) and therefore no reachable '
-         'configuration is deadlocked (C04_no_deadlock). ISOLATION (C04_different_studies_any_schedule): two calls of any kind (except study '
+         'configuration is deadlocked (C04_no_deadlock); under every schedule no lock is ever held by two threads (C04_mutual_exclusion) and '
+         'in every handler every datastore write is made under the lock of what it writes (C04_writes_are_made_under_their_lock). '
+         'TRANSLATOR: coq/Gen/ServiceLocks.v is regenerated from vizier_service.py at every run (per RPC method: datastore call sites in '
+         'source order with the lexically enclosing servicer locks; nesting of the with-statements); re-checked in the kernel on that '
+         'table: writes under their lock, every read that feeds a rewrite under the same lock (get_trial / update_trial, max_trial_id '
+         'directly before create_trial, ...), operation lock never taken inside another lock (C04_source_*). ISOLATION (C04_different_studies_any_schedule): two calls of any kind (except study '
          'creation / deletion / listing) that address different studies end with the same replies, owners and stored data under EVERY pair '
          'of complete schedules, hence every interleaving equals both serial orders (every datastore primitive reads and writes only the '
          'node of its study; each thread is simulated by the same thread running alone). For calls on the SAME study the full '
@@ -130,7 +144,7 @@ CLAIMED['C04'] = dict(
          'on the same trial under every schedule of the form "A takes j steps, B runs to completion, A finishes". Two families of real races were found and repaired '
          '(fix: commits).'),
    note=SVC_NOTE + ' Scheduling points are datastore primitive calls and servicer-lock acquisitions; interleavings inside a datastore primitive, inside SQLite/gRPC and the GIL are not explored; at most 3 threads in the exploration (the theorems are unbounded).',
-   technique='Rocq proof (invariant over all interleavings; lock-order argument) + deterministic-scheduler exploration against serial orders', design='5/C04')
+   technique='Rocq proof (invariants over all interleavings; lock-order argument; simulation by solo runs) + source translator for lock coverage + deterministic-scheduler exploration against serial orders', design='5/C04')
 CLAIMED['C08'] = dict(
    text=('All three deployments run the same servicer code (one model); they differ in how a server-side error reaches the client. '
          'TRANSLATOR: coq/Gen/StatusMap.v is regenerated from grpc_util.handle_exception (exception -> status table, termination of the RPC '
